@@ -666,7 +666,7 @@ def trace_validate(ctx, tie, exe, args, timeout=1200, max_report=3):
             accepted = traces - len(bad_traces)
     crashed = rc != 0
     tail = (out[-1500:] + "\n" + err[-3000:]) if crashed else ""
-    ctx.cov["evaluations"] += traces + stats.get("cases", 0)
+    ctx.cov["evaluations"] += traces if traces else stats.get("cases", 0)
     ctx.cov["distinct_nontrivial"] += len(nts)
     ctx.cov["traces_validated_against_impl"] += accepted
     if traces and len(ctx.cov["samples"]) < 5:
